@@ -62,15 +62,31 @@ PATH_SETS = {
 }
 
 
+LONG_T = 70
+
+
+def _long_paths():
+    """16 long price paths (T = 70 points, more than 64 steps): every +-1 pattern of length 4 drives an oscillating,
+    bounded log-price; de-tied like the complete sets."""
+    signs = all_paths([-1.0, 1.0], 4, dtype=torch.float64)                 # (16, 4)
+    t = torch.arange(LONG_T - 1)
+    drive = signs[:, t % 4] * torch.where((t // 4) % 2 == 0, 1.0, -1.0).to(torch.float64)
+    logp = torch.cat([torch.zeros(16, 1, dtype=torch.float64), 0.04 * drive.cumsum(-1)], dim=-1)
+    return logp.exp()
+
+
 def path_set(name, extra=None, batch=0):
     """Complete path set over the alphabet, de-tied: cell (j, t) is multiplied by
     1 + (frac((j*T + t + 1) * golden) - 1/2) / 32, a deterministic low-discrepancy perturbation, so
     that no two paths (and no two P&L order statistics) coincide.  ``batch`` j > 0 gives the j-th further batch of an
     ensemble (n_times > 1): another stretch of the perturbation sequence and all prices scaled by 1 + j/16."""
-    A, T, first = PATH_SETS[name]
-    if extra is not None:
-        A = list(A) + [extra]
-    base = all_paths(A, T, dtype=torch.float64, first=first)
+    if name == "L70":
+        base, T = _long_paths(), LONG_T
+    else:
+        A, T, first = PATH_SETS[name]
+        if extra is not None:
+            A = list(A) + [extra]
+        base = all_paths(A, T, dtype=torch.float64, first=first)
     N = base.size(0)
     k = torch.arange(N * T, dtype=torch.float64).reshape(N, T) + 1 + 1009 * batch
     pert = torch.frac(k * GOLD) - 0.5
@@ -756,9 +772,11 @@ def lazy_first_call(ctx, block):
                 if not loss.requires_grad:
                     return loss, None
                 for _, p in _all_params(w):
-                    p.grad = None
+                    if not isinstance(p, torch.nn.parameter.UninitializedParameter):
+                        p.grad = None
                 loss.backward()
-                return loss, {n: (None if p.grad is None else p.grad.clone()) for n, p in _all_params(w)}
+                return loss, {n: (None if isinstance(p, torch.nn.parameter.UninitializedParameter) or p.grad is None else p.grad.clone())
+                              for n, p in _all_params(w)}
 
             # A: first call differentiated
             wa = _lazy_world(case)
@@ -772,10 +790,22 @@ def lazy_first_call(ctx, block):
                               observed=str(e)[:200], expected="a gradient", block=mini)
                 ctx.tick(1)
                 continue
+            still_lazy = [n for n, p in _all_params(wa) if isinstance(p, torch.nn.parameter.UninitializedParameter)]
+            if still_lazy:
+                ctx.violation(site, f"lazy_first_call_not_materialised:{case['fm']}",
+                              f"after the first differentiated loss the user's modules still hold un-materialised parameters {still_lazy}: "
+                              f"the loss was not computed with them", observed=still_lazy, expected=[], block=mini)
+                ctx.tick(1)
+                continue
             # B: warm-up without gradients first
             wb = _lazy_world(case)
             wb.sim.calls = 0
             wb.hedger.compute_loss(wb.derivative, hedge=wb.hedge, n_paths=wb.N, enable_grad=False)
+            if any(isinstance(p, torch.nn.parameter.UninitializedParameter) for _, p in _all_params(wb)):
+                ctx.violation(site, f"lazy_first_call_not_materialised:{case['fm']}", "a gradient-free evaluation left the user's lazy modules un-materialised",
+                              observed=True, expected=False, block=mini)
+                ctx.tick(1)
+                continue
             pa = {n: p.detach().clone() for n, p in _all_params(wa)}
             pb = {n: p.detach().clone() for n, p in _all_params(wb)}
             if set(pa) != set(pb) or any(not torch.equal(pa[n], pb[n]) for n in pa):
@@ -916,9 +946,12 @@ def run(ctx):
     extra = ctx.extra_symbol("spot", [0.7, 1.1, 1.25, 1.4])
     if ctx.quick:
         ctx.alphabet("path_sets", {k: PATH_SETS[k] for k in ("A3T4", "A2T5")})
-        # Q1: the full product on the tanh network, first path set
-        q1 = _cases({"criterion": list(CRITERIA), "fm": list(FMODES), "cost": [0.0, 0.01], "H": [1, 2], "model": ["mlp"],
+        # Q1: the tanh network on the first path set: every criterion x feature mode x H with costs; cost-free for
+        # the three basic feature modes
+        q1 = _cases({"criterion": list(CRITERIA), "fm": list(FMODES), "cost": [0.01], "H": [1, 2], "model": ["mlp"],
                      "paths": ["A3T4"]}, wseed)
+        q1 += _cases({"criterion": list(CRITERIA), "fm": ["vec", "prev", "mo_prev"], "cost": [0.0], "H": [1, 2], "model": ["mlp"],
+                      "paths": ["A3T4"]}, wseed)
         # Q2: the linear model on the second path set (costs on)
         q2 = _cases({"criterion": list(CRITERIA), "fm": list(FMODES), "cost": [0.01], "H": [1, 2], "model": ["linear"],
                      "paths": ["A2T5"]}, wseed)
@@ -927,8 +960,8 @@ def run(ctx):
                      "paths": ["A2T5"]}, wseed)
         # Q4: ensemble means (a different scripted batch per simulate call) and the module-mode axis
         q4 = []
-        for nt, mode in ((2, "train"), (3, "train"), (1, "eval"), (2, "eval")):
-            for c in _cases({"criterion": list(CRITERIA), "fm": ["vec", "prev"], "cost": [0.01], "H": [1], "model": ["mlp"],
+        for nt, mode, fms in ((2, "train", ["vec", "prev"]), (3, "train", ["prev"]), (1, "eval", ["vec", "prev"]), (2, "eval", ["prev"])):
+            for c in _cases({"criterion": list(CRITERIA), "fm": fms, "cost": [0.01], "H": [1], "model": ["mlp"],
                              "paths": ["A2T5"]}, wseed):
                 q4.append(dict(c, n_times=nt, mode=mode))
         # Q5: trainable layers in front of WhalleyWilmott (delta and gamma-dependent band width depend on parameters),
@@ -942,10 +975,13 @@ def run(ctx):
         # Q6: operation histories on the same hedger before the gradient is taken
         q6 = []
         for hist in HISTORIES:
-            for c in _cases({"criterion": ["oce", "erm", "es"], "fm": ["vec", "mo_prev"], "cost": [0.01], "H": [1],
+            for c in _cases({"criterion": ["oce", "es"], "fm": ["vec", "mo_prev"], "cost": [0.01], "H": [1],
                              "model": ["mlp", "mlp_frozen_first"], "paths": ["A2T5"]}, wseed):
                 q6.append(dict(c, history=hist))
-        q3 = q3 + q4 + q5 + q6
+        # Q7: one long series (T = 70 > 64 recurrent steps)
+        q7 = _cases({"criterion": ["erm", "es"], "fm": ["prev", "mo_prev"], "cost": [0.01], "H": [1], "model": ["mlp"],
+                     "paths": ["L70"]}, wseed)
+        q3 = q3 + q4 + q5 + q6 + q7
         for chunk in _chunks(q1 + q2 + q3, 16):
             ctx.run("grad_fd", {"cases": chunk})
         ng = _cases({"criterion": list(CRITERIA), "fm": ["vec", "prev", "mo_vec"], "cost": [0.01], "H": [1, 2],
@@ -973,6 +1009,9 @@ def run(ctx):
                           "paths": [ps]}, wseed)
             cs += [dict(c, mode="eval") for c in cs if c["criterion"] == "oce"]
             blocks += [{"cases": c} for c in _chunks(cs, 30)]
+        cs = _cases({"criterion": crits, "fm": ["step", "prev", "mo_prev", "mo_free_prev"], "cost": [0.0, 0.01], "H": [1, 2],
+                     "model": ["mlp", "linear"], "paths": ["L70"]}, wseed)
+        blocks += [{"cases": c} for c in _chunks(cs, 8)]
         for ps in ("A3T4", "A2T6", "A5T3"):
             cs = []
             for hist in HISTORIES:
